@@ -1077,14 +1077,16 @@ where
                 return Ok(result);
             }
             Some(0x26 /* & */) => {
-                self.consume('&');
-                if self.peek() == Some(0x26 /* & */) {
+                let mut cursor = self.input.clone();
+                cursor.next();
+                if cursor.peek() == Some(&0x26 /* & */) {
+                    self.consume('&');
                     self.consume('&');
                     result.union_operand(self.close_class_set_operand(first.clone()));
                     ClassSetOperator::Intersection
                 } else {
+                    // A single '&' is an ordinary class set character, possibly the start of a range.
                     result.union_operand(first.clone());
-                    result.codepoints.add_one(0x26 /* & */);
                     ClassSetOperator::Union
                 }
             }
